@@ -162,6 +162,8 @@ static struct {
 	tp_skey srv_rsa, srv_ecec, srv_ecrsa, srv_ec384, cli_rsa, cli_ec, other_rsa, other_ec, weak_rsa;
 	br_x509_certificate ch_srv_rsa[1], ch_srv_ecec[1], ch_srv_ecrsa[1], ch_srv_ec384[1],
 		ch_cli_rsa[1], ch_cli_ec[1], ch_weak_rsa[1];
+	/* longer chains: leaf + intermediate, a leaf of 21 kB + intermediate, leaf + the (superfluous) root */
+	br_x509_certificate ch_srv_rsa_int[2], ch_srv_ecrsa_int[2], ch_cli_rsa_int[2], ch_srv_rsa_big[2], ch_srv_rsa_root[2];
 	tp_anchor anchors[3];      /* ca_rsa, ca_ec, ca_other */
 	br_x509_trust_anchor tas[3];
 } tp_fx;
@@ -249,6 +251,11 @@ tp_fixtures(void)
 	TP_CERT(tp_fx.ch_cli_rsa, cli_rsa);
 	TP_CERT(tp_fx.ch_cli_ec, cli_ec);
 	TP_CERT(tp_fx.ch_weak_rsa, weak_rsa);
+	TP_CERT(tp_fx.ch_srv_rsa_int, srv_rsa_int); TP_CERT(tp_fx.ch_srv_rsa_int + 1, int_rsa);
+	TP_CERT(tp_fx.ch_srv_ecrsa_int, srv_ecrsa_int); TP_CERT(tp_fx.ch_srv_ecrsa_int + 1, int_rsa);
+	TP_CERT(tp_fx.ch_cli_rsa_int, cli_rsa_int); TP_CERT(tp_fx.ch_cli_rsa_int + 1, int_rsa);
+	TP_CERT(tp_fx.ch_srv_rsa_big, srv_rsa_big); TP_CERT(tp_fx.ch_srv_rsa_big + 1, int_rsa);
+	TP_CERT(tp_fx.ch_srv_rsa_root, srv_rsa); TP_CERT(tp_fx.ch_srv_rsa_root + 1, ca_rsa);
 	tp_load_anchor(&tp_fx.anchors[0], FX_ca_rsa_crt, FX_ca_rsa_crt_len);
 	tp_load_anchor(&tp_fx.anchors[1], FX_ca_ec_crt, FX_ca_ec_crt_len);
 	tp_load_anchor(&tp_fx.anchors[2], FX_ca_other_crt, FX_ca_other_crt_len);
@@ -352,6 +359,34 @@ static const br_x509_class tpx_vtable = {
 	tpx_start_chain, tpx_start_cert, tpx_append, tpx_end_cert, tpx_end_chain, tpx_get_pkey
 };
 
+/* the chain an endpoint configured with cfg sends (server: its own; client: its certificate when asked) */
+static const br_x509_certificate *
+tp_chain_pick(int role, int keykind, int client_auth, int use_ec384, int chain_kind, size_t *n)
+{
+	*n = 1;
+	if (role == 1) {
+		switch (keykind) {
+		case 0 /* TP_KEY_RSA */:
+			if (chain_kind == 1) { *n = 2; return tp_fx.ch_srv_rsa_int; }
+			if (chain_kind == 2) { *n = 2; return tp_fx.ch_srv_rsa_big; }
+			if (chain_kind == 3) { *n = 2; return tp_fx.ch_srv_rsa_root; }
+			return tp_fx.ch_srv_rsa;
+		case 3 /* TP_KEY_RSA_WEAK */: return tp_fx.ch_weak_rsa;
+		case 1 /* TP_KEY_ECEC */: return use_ec384 ? tp_fx.ch_srv_ec384 : tp_fx.ch_srv_ecec;
+		default:
+			if (chain_kind == 1) { *n = 2; return tp_fx.ch_srv_ecrsa_int; }
+			return tp_fx.ch_srv_ecrsa;
+		}
+	}
+	if (client_auth == 1) {
+		if (chain_kind == 1) { *n = 2; return tp_fx.ch_cli_rsa_int; }
+		return tp_fx.ch_cli_rsa;
+	}
+	if (client_auth == 2) return tp_fx.ch_cli_ec;
+	*n = 0;
+	return NULL;
+}
+
 /* ------------------------------------------------------------------ */
 /* endpoint */
 
@@ -385,6 +420,9 @@ typedef struct {
 	                             poly1305_ctmul32, EC all_m15, RSA/ECDSA i15); 2 table-based / 32-bit set (aes_big, des_tab, ghash_ctmul, poly1305_ctmul, EC all_m31, i31); 3 64-bit set (aes_ct64, ghash_ctmul64, poly1305_ctmulq) */
 	int ta_plain_names;       /* server, client_auth: br_ssl_server_set_trust_anchor_names instead of _alt */
 	const unsigned char *inject_bytes;   /* with inject_entropy: 32 bytes to inject instead of seed[] */
+	int chain_kind;           /* own chain: 0 the single certificate; 1 leaf + intermediate; 2 a 21 kB leaf + intermediate (Certificate
+	                             message larger than a record); 3 leaf + the root itself.  RSA server key: all; EC key with RSA-signed
+	                             certificate and RSA client certificate: 1; ignored elsewhere (see tp_chain_of) */
 	int mismatch_key;         /* server: private key that does not match the chain; client: same for the client certificate */
 	/* hooks for property-specific configuration just before reset */
 	void (*pre_reset)(void *ep, void *arg);
@@ -481,9 +519,11 @@ tp_ep_start(tp_ep *ep, const tp_cfg *cfg)
 		} else {
 			ep->sc = malloc(sizeof *ep->sc);
 			ep->eng = &ep->sc->eng;
+			size_t chn;
+			const br_x509_certificate *chp = tp_chain_pick(1, cfg->keykind, 0, cfg->use_ec384, cfg->chain_kind, &chn);
 			switch (cfg->keykind) {
 			case TP_KEY_RSA:
-				br_ssl_server_init_full_rsa(ep->sc, tp_fx.ch_srv_rsa, 1,
+				br_ssl_server_init_full_rsa(ep->sc, chp, chn,
 					cfg->mismatch_key ? &tp_fx.other_rsa.rsa : &tp_fx.srv_rsa.rsa);
 				break;
 			case TP_KEY_RSA_WEAK:
@@ -499,7 +539,7 @@ tp_ep_start(tp_ep *ep, const tp_cfg *cfg)
 				}
 				break;
 			default:
-				br_ssl_server_init_full_ec(ep->sc, tp_fx.ch_srv_ecrsa, 1,
+				br_ssl_server_init_full_ec(ep->sc, chp, chn,
 					BR_KEYTYPE_RSA, cfg->mismatch_key ? &tp_fx.other_ec.ec : &tp_fx.srv_ecrsa.ec);
 				break;
 			}
@@ -535,7 +575,9 @@ tp_ep_start(tp_ep *ep, const tp_cfg *cfg)
 			br_ssl_engine_set_x509(ep->eng, &ep->xw->vtable);
 		}
 		if (cfg->role == 0 && cfg->client_auth == 1) {
-			br_ssl_client_set_single_rsa(ep->cc, tp_fx.ch_cli_rsa, 1,
+			size_t chn;
+			const br_x509_certificate *chp = tp_chain_pick(0, 0, 1, 0, cfg->chain_kind, &chn);
+			br_ssl_client_set_single_rsa(ep->cc, chp, chn,
 				cfg->mismatch_key ? &tp_fx.other_rsa.rsa : &tp_fx.cli_rsa.rsa,
 				br_rsa_pkcs1_sign_get_default());
 		} else if (cfg->role == 0 && cfg->client_auth == 2) {
